@@ -252,6 +252,8 @@ func Decode(b []byte) (Doc, Info, error) {
 
 var entities = []struct{ ent, rep string }{{"&amp;", "&"}, {"&lt;", "<"}, {"&gt;", ">"}, {"&nbsp;", "\u00a0"}, {"&lrm;", "\u200e"}, {"&rlm;", "\u200f"}}
 
+var numRefRe = regexp.MustCompile(`^&#(?:[xX]([0-9a-fA-F]+)|([0-9]+));`)
+
 func unescape(s string) string {
 	var b strings.Builder
 outer:
@@ -324,7 +326,8 @@ func decodeLine(l string, stack *[]Tag) (Line, error) {
 			ann := ""
 			if k := strings.IndexAny(body, " \t"); k >= 0 {
 				head = body[:k]
-				ann = strings.TrimSpace(body[k+1:])
+				// annotation: character references replaced, outer white space dropped, inner runs of white space = one space
+				ann = unescape(strings.Join(strings.FieldsFunc(body[k+1:], func(r rune) bool { return r == ' ' || r == '\t' || r == '\f' }), " "))
 			}
 			parts := strings.Split(head, ".")
 			t := Tag{Name: parts[0], Annotation: ann}
